@@ -504,7 +504,7 @@ def emission_algebra(prog, chk):
     chk.touch(b)
     n = 0
     bad = []
-    for shape in ("rect", "circle", "ellipse", "use", "image"):
+    for shape in ("rect", "circle", "ellipse", "use", "image", "line"):
         for px, (ax, bx) in PAIRS.items():
             for py, (ay, by) in PAIRS.items():
                 for with_d in (True, False):
@@ -516,7 +516,9 @@ def emission_algebra(prog, chk):
                     fields["dx"] = ("some", {"DX": Fraction(1)}) if with_d else ("none",)
                     fields["dy"] = ("some", {"DY": Fraction(1)}) if with_d else ("none",)
                     fields["shape"] = ("str", shape)
-                    ev = A.Evaluator(prog, name_case=shape, transparent=("strp", "fstr"), watch=("set_attr",))
+                    # a line keeps end points that are written as x1 / y1 / x2 / y2 (it has a direction); the case here
+                    # is the one where none is - the position came from x / y / xy, a centre, a size, another element
+                    ev = A.Evaluator(prog, name_case=shape, transparent=("strp", "fstr"), watch=("set_attr",), absent=(("x1", "y1", "x2", "y2") if shape == "line" else ()))
                     ev.summary(path, self_value=("struct", fields))
                     got = {}
                     for c in ev.calls:
@@ -533,6 +535,8 @@ def emission_algebra(prog, chk):
                         want = {"x": L._add(Ax, dx), "y": L._add(Ay, dy), "width": L._add(Bx, Ax, -1), "height": L._add(By, Ay, -1)}
                     elif shape == "use":
                         want = {"x": L._add(Ax, dx), "y": L._add(Ay, dy)}  # a <use> is placed, never sized
+                    elif shape == "line":
+                        want = {"x1": L._add(Ax, dx), "y1": L._add(Ay, dy), "x2": L._add(Bx, dx), "y2": L._add(By, dy)}
                     elif shape == "circle":
                         want = {"cx": L._add(half(Ax, Bx), dx), "cy": L._add(half(Ay, By), dy), "r": L._scale(L._add(Bx, Ax, -1), Fraction(1, 2))}
                     else:
@@ -542,8 +546,8 @@ def emission_algebra(prog, chk):
                     if diffs:
                         k = diffs[0]
                         bad.append(f"{shape} x:{'+'.join(px)} y:{'+'.join(py)}{' dx/dy' if with_d else ''}: `{k}` is {A.canon(got.get(k))}, the constraints give {A.canon(want.get(k))}")
-    chk.floor("A17.emission", n, 360, "shape x constraint-pair x constraint-pair x offset case of set_position_attrs")
-    chk.ob(not bad, "A17.emission", "set_position_attrs", b.where(), f"all {n} cases (5 shapes x 36 constraint combinations x with/without dx,dy) write exactly the geometry the constraints define", f"{len(bad)} of {n} cases disagree with the defining equations, e.g. {bad[0] if bad else ''}" + (f"; {bad[1]}" if len(bad) > 1 else ""))
+    chk.floor("A17.emission", n, 432, "shape x constraint-pair x constraint-pair x offset case of set_position_attrs")
+    chk.ob(not bad, "A17.emission", "set_position_attrs", b.where(), f"all {n} cases (6 shapes x 36 constraint combinations x with/without dx,dy) write exactly the geometry the constraints define", f"{len(bad)} of {n} cases disagree with the defining equations, e.g. {bad[0] if bad else ''}" + (f"; {bad[1]}" if len(bad) > 1 else ""))
 
 
 def _sub_axis(expr, axis):
